@@ -126,11 +126,20 @@ func run(r *core.Run) {
 		pk := env.NewKV(rd, 1+rd.Intn(3), 1+rd.Intn(3)) // poison key history, newest first
 		kv := env.NewKV(rd, 1+rd.Intn(2), 1+rd.Intn(2)) // the client's own keys
 		kind := []string{"struct", "block"}[rd.Intn(2)]
+		if i%5 == 2 { // poison symmetric-key history in which a newer key has the same 2-byte key id as the rotated one
+			a, b := env.CollidingKeys(rd, nil)
+			pk.Syms = [][]byte{a, b}
+			pk.Sym = a
+			kind = "block"
+		}
 		// the record may have been created before a poison-key rotation
 		wpk := *pk
 		wi := rd.Intn(len(pk.Privs))
 		wpk.Pub = env.PubOf(pk.Privs[wi])
 		wpk.Sym = pk.Syms[rd.Intn(len(pk.Syms))]
+		if i%5 == 2 {
+			wpk.Sym = pk.Syms[1] // sealed under the rotated key; the colliding newer key is tried first
+		}
 		dl := 1 + rd.Intn(99)
 		r.Begin(fmt.Sprintf("poison-%d", i), true, "kind:"+kind, "case:poison")
 		out := r.Do(fmt.Sprintf("C15.create %s %s %d %s", kind, wpk.Tokens(), dl, core.Hex(rd.Bytes(dl+96))))
